@@ -224,11 +224,22 @@ func (d *driver) create(li *logInst) error {
 	d.w.mu.Lock()
 	d.w.logf(nil, "ev|create|%d|%s|%d|%d", li.in.id, li.name, li.keyID, li.pool)
 	d.w.mu.Unlock()
+	d.w.mu.Lock()
+	_, hadCheckpoint := d.w.objects["checkpoint"]
+	planned := li.in.plan != nil
+	d.w.mu.Unlock()
 	err := ctlog.CreateLog(context.Background(), li.cfg)
 	d.w.mu.Lock()
 	defer d.w.mu.Unlock()
 	if li.in.dead {
 		return errDead
+	}
+	if hadCheckpoint && !planned && li.in.crashAt < 0 {
+		// C06: a log is never created over an existing one, whoever signed what object storage holds
+		d.w.mon.checks["C06.create-over-storage"]++
+		if err == nil {
+			d.w.mon.fail("C06 CreateLog (key %d, name %s) succeeded although object storage already held a log's checkpoint (no fault injected): the published checkpoint was overwritten", li.keyID, li.name)
+		}
 	}
 	if err == nil {
 		d.w.logf(nil, "> create %d ok created", li.in.id)
